@@ -20,7 +20,7 @@
    oracle of harness/props/c03.py together with the correspondence run. *)
 From Coq Require Import String.
 From YV Require Import PyBase CharTables Token Utils Rpal PState Parser Exec Ml
-                       RpalProofs MlProofs ExpandSites ExecPlain ExecUnk ExecArgs SkipProofs Scanner Catalogue.
+                       RpalProofs MlProofs ExpandSites ExecPlain ExecUnk ExecArgs ArgSites SkipProofs Scanner Catalogue.
 Open Scope Z_scope.
 
 (* (1) removal of pure action lines: the characters that are no white space
@@ -67,6 +67,16 @@ Proof.
                           (eq_refl true)).
 Qed.
 Print Assumptions C03_words_stay_markup_vanishes.
+
+(* (4b) arguments that are not typeset: a macro declared with mandatory
+   arguments and an empty replacement (\label, \index, \vspace, ...) leaves
+   one action token, whatever its braced groups hold *)
+Theorem C03_dropped_arguments : forall T rd rec fuel st buf rest mac start gs,
+  m_args mac = repeat AMand (length gs) -> m_extract mac = [] -> m_repl mac = RToks [] ->
+  ArgSites.groups gs buf rest ->
+  Expand.expand_arguments T rd rec fuel st buf mac start = Ok (st, ([ActionT start], rest)).
+Proof. exact ArgSites.dropped_arguments. Qed.
+Print Assumptions C03_dropped_arguments.
 
 (* (5) hidden text: `regions toks out` says that toks consists of stretches
    without opening mark (kept) alternating with  opening mark, tokens without
